@@ -205,24 +205,33 @@ def owners_of(m):
 # --cross: the entries (source file, old, new) for which all 20 checks are run, with the checks that may alarm besides the owners
 # and why.  The kernel checks C01-C07 replay mixed script families against one kernel model, so a behavioural change in the kernel
 # also shows in the correspondence of the kernel checks whose scripts exercise it (`py2lean/SCOPE.md`, "what still cross-alarms").
-KERNEL = ('C01', 'C02', 'C03', 'C04', 'C05', 'C06', 'C07', 'C20')
 CROSS = {
+    # -- only the owners alarm
     (EVENTS, 'return len(events) == count', 'return len(events) <= count'): (),
-    (EVENTS, 'return count > 0 or len(events) == 0', 'return count > 0'): KERNEL,
+    (EVENTS, 'return count > 0 or len(events) == 0', 'return count > 0'): (),
     (CONT, 'if self._capacity - self._level >= event.amount:', 'if self._capacity - self._level > event.amount:'): (),
-    (CONT, 'if self._level >= event.amount:', 'if self._level > event.amount:'): KERNEL,
+    (CONT, 'if self._level >= event.amount:', 'if self._level > event.amount:'): (),
     (RES, 'if len(self._users) < self.capacity:', 'if len(self._users) <= self.capacity:'): (),
-    (RES, 'if preempt.key > event.key:', 'if preempt.key >= event.key:'): KERNEL,
-    (BASE, '        if not self.triggered:\n            self.resource.get_queue.remove(self)', '        if self.triggered:\n            self.resource.get_queue.remove(self)'): KERNEL,
-    (CORE, 'if at <= self.now:', 'if at < self.now:'): KERNEL,
-    (EVENTS, '                self._value = e.args[0] if len(e.args) else None\n                self.env.schedule(self)',
-     '                self._value = e.args[0] if len(e.args) else None\n                self.env.schedule(self, URGENT)'): KERNEL,
-    (EVENTS, 'if process is self.env.active_process:', 'if process is not self.env.active_process:'): KERNEL + ('C19',),
-    ('onl/scheduler/base.py', 'yield self.env.timeout(packet.size * 8.0 / self.rate)', 'yield self.env.timeout(packet.size * 8.5 / self.rate)'): ('C13', 'C14', 'C15'),
+    (RES, 'if preempt.key > event.key:', 'if preempt.key >= event.key:'): (),
+    (BASE, '        if not self.triggered:\n            self.resource.get_queue.remove(self)', '        if self.triggered:\n            self.resource.get_queue.remove(self)'): (),
     ('onl/netdev/wire.py', 'if queued_time < delay:', 'if queued_time <= delay:'): (),
     ('onl/netdev/token_bucket.py', 'if packet.size > self.current_bucket:', 'if packet.size >= self.current_bucket:'): (),
-    ('onl/scheduler/drr.py', 'if count > 0:', 'if count >= 0:'): ('C12', 'C08'),
-    ('onl/packet/tcp_sink.py', 'flow_id=packet.flow_id + 10000', 'flow_id=packet.flow_id + 1000'): ('C17',),
+    ('onl/packet/tcp_sink.py', 'flow_id=packet.flow_id + 10000', 'flow_id=packet.flow_id + 1000'): (),
+    # -- C01 replays split runs too and its text names the run-until stop: its correspondence sees the changed refusal
+    (CORE, 'if at <= self.now:', 'if at < self.now:'): ('C01',),
+    # -- the end of a process becomes urgent: every kernel check whose scripts let a process end in the same instant as another
+    #    occurrence replays a different order (C04: its direct oracle fails too - an interrupt is overtaken; C03: `step()` plans count
+    #    the reordered occurrences)
+    (EVENTS, '                self._value = e.args[0] if len(e.args) else None\n                self.env.schedule(self)',
+     '                self._value = e.args[0] if len(e.args) else None\n                self.env.schedule(self, URGENT)'): ('C03', 'C04', 'C05', 'C06', 'C07', 'C20'),
+    # -- interrupting anybody but oneself now raises: everything built on interrupts breaks for real (Timer.stop / restart: C19;
+    #    preemption: C06, direct oracles fail) or is replayed differently (C01, C02, C05)
+    (EVENTS, 'if process is self.env.active_process:', 'if process is not self.env.active_process:'): ('C01', 'C02', 'C03', 'C05', 'C06', 'C19', 'C20'),
+    # -- the transmission time is part of every scheduler trace: C13 and C15 apply C12's service-time oracle to SP / RR / WRR / DRR,
+    #    C14's replay compares the clock of WFQ / VirtualClock bit for bit
+    ('onl/scheduler/base.py', 'yield self.env.timeout(packet.size * 8.0 / self.rate)', 'yield self.env.timeout(packet.size * 8.5 / self.rate)'): ('C13', 'C14', 'C15'),
+    # -- a DRR class with an empty queue is visited: the multi-queue replay of C12 (which covers DRR) disagrees
+    ('onl/scheduler/drr.py', 'if count > 0:', 'if count >= 0:'): ('C12',),
 }
 
 
